@@ -58,3 +58,15 @@ func LineSpan(line []rune, idx, indent int) (x, y int) {
 
 	return cursorX, cursorY
 }
+
+// LineRows returns the number of terminal rows used by a line that is followed
+// by a newline. Unlike the Y value of LineSpan, a line that exactly fills its last
+// row does not count the row below: what moves there is the newline printed next.
+func LineRows(line []rune, indent int) int {
+	x, y := LineSpan(line, 0, indent)
+	if x == 0 && y > 0 {
+		y--
+	}
+
+	return y + 1
+}
